@@ -72,6 +72,14 @@ def make_twin(runner, shadow, task_ops):
     return tw, problems
 
 
+import re as _re
+_NEG_ZERO = _re.compile(r"(?<![\w.])-0\.0(?![\w.])")
+
+
+def unsigned_zero(text):
+    return _NEG_ZERO.sub("0.0", text)
+
+
 def compare_queries(real, twin, locs, counters):
     problems = []
     a, b = str_supports(real.mgr), str_supports(twin.mgr)
@@ -90,7 +98,9 @@ def compare_queries(real, twin, locs, counters):
             ta, tb = set(map(str, ra._tasks)), set(map(str, rb._tasks))
             if ta != tb:
                 problems.append("tasks writing %s: %s vs fresh %s" % (ra, sorted(ta), sorted(tb)))
-            if str(ra._expr) != str(rb._expr):
+            # (a captured current value may be a zero whose SIGN differs between the compiled build and the shadow --
+            #  the Cython signed-zero artefact of DESIGN 8.2; the sign of a literal zero is not compared)
+            if unsigned_zero(str(ra._expr)) != unsigned_zero(str(rb._expr)):
                 problems.append("expression of %s: %s vs fresh %s" % (ra, ra._expr, rb._expr))
         except Exception as exc:
             problems.append("query on %s raised %s: %s" % (ra, type(exc).__name__, str(exc)[:200]))
